@@ -4,6 +4,7 @@ import (
 	"fmt"
 	"reflect"
 	"sort"
+	"strconv"
 	"strings"
 	"time"
 
@@ -34,6 +35,7 @@ type Op struct {
 	PanicAt int      `json:"panic_at,omitempty"`
 	ErrAt   int      `json:"err_at,omitempty"`
 	Arg     string   `json:"arg,omitempty"`
+	Rev     bool     `json:"rev,omitempty"` // destination struct types declare their fields in reverse order
 	IO      *IOSpec  `json:"io,omitempty"`
 }
 
@@ -52,6 +54,16 @@ type World struct {
 	Detail   string          `json:"detail,omitempty"`
 	Digest   string          `json:"event_digest,omitempty"`
 	Faults   map[string]int64 `json:"faults_fired,omitempty"`
+	// Sequence: the violation needs library state left behind by earlier worlds of the same process
+	// (package-level caches and the like): the replay is this list of world indices, executed in order.
+	Sequence *SeqSpec `json:"sequence,omitempty"`
+}
+
+type SeqSpec struct {
+	Seed    uint64 `json:"seed"`
+	Tier    string `json:"tier"`
+	Indices []int  `json:"indices"`
+	Stride  int    `json:"stride"` // worker count of the run that found it: decides which worlds the worker re-executed for its determinism self-check
 }
 
 func (w *World) P(k string) int { return w.Params[k] }
@@ -217,9 +229,20 @@ func (r *Result) Fulls() []string {
 // Execution context
 
 type Built struct {
-	N   *Node
-	Z   z.ZogSchema
-	Typ reflect.Type
+	N      *Node
+	Z      z.ZogSchema
+	Typ    reflect.Type
+	TypRev reflect.Type
+}
+
+func (b *Built) typ(rev bool) reflect.Type {
+	if rev {
+		if b.TypRev == nil {
+			b.TypRev = TypeOfRev(b.N)
+		}
+		return b.TypRev
+	}
+	return b.Typ
 }
 
 type Violation struct {
@@ -250,6 +273,8 @@ type X struct {
 	genRng     *Rng // run-time generation (preemption points); results are stored in the world
 	given      any  // op.Arg == "given": hand this Go value to Parse as is
 	leanRecs   [8]*OpRec
+	OpaqueResults bool
+	SanitizeBad   string
 }
 
 func NewX(w *World, dec *Dec) *X {
@@ -359,7 +384,7 @@ func (x *X) Exec(tag string, op *Op) *Result {
 	res := &Result{}
 	rec := &OpRec{RootNode: b.N, PanicAt: op.PanicAt, ErrAt: op.ErrAt, Validate: op.Kind == "validate"}
 	rec.CtxKeys = x.ctxKeys()
-	dest := reflect.New(b.Typ)
+	dest := reflect.New(b.typ(op.Rev))
 	var data any
 	cleanup := func() {}
 	if op.Kind == "validate" {
@@ -407,7 +432,13 @@ func (x *X) Exec(tag string, op *Op) *Result {
 	}
 	x.Ops++
 	// the result summary is part of the event log: same decisions => same results
-	x.R.Event("res " + tag + " panic=" + res.Panic + " issues=" + strings.Join(res.Fulls(), ";") + " dest=" + res.Dest)
+	if x.OpaqueResults {
+		// inputs whose %v prints an address (pointer chains, channels, funcs) make the library's own output
+		// allocation-dependent; such worlds log only whether the call returned
+		x.R.Event("res " + tag + " panicked=" + strconv.FormatBool(res.Panic != ""))
+	} else {
+		x.R.Event("res " + tag + " panic=" + res.Panic + " issues=" + strings.Join(res.Fulls(), ";") + " dest=" + res.Dest)
+	}
 	return res
 }
 
@@ -439,9 +470,46 @@ func (x *X) Collect(tag string, how string, res *Result) (sanitized string, pani
 		}
 	}()
 	x.R.Event("collect " + tag + " " + how)
+	want := expectedSanitized(how, res.raw)
 	sanitized = collectRaw(how, res.raw)
+	if want != "" && sanitized != want && x.SanitizeBad == "" {
+		x.SanitizeBad = fmt.Sprintf("%s returned %s, the issues it was given carry %s", how, sanitized, want)
+	}
 	x.Ops++
 	return
+}
+
+// expectedSanitized is what Sanitize*AndCollect must return: the messages the
+// issues carried when they were handed in, under the same keys, in the same order.
+func expectedSanitized(how string, rawAny any) string {
+	if !strings.HasPrefix(how, "Sanitize") {
+		return ""
+	}
+	switch raw := rawAny.(type) {
+	case z.ZogIssueMap:
+		if raw == nil {
+			return ""
+		}
+		m := make(map[string][]string, len(raw))
+		for k, l := range raw {
+			msgs := make([]string, len(l))
+			for i, iss := range l {
+				msgs[i] = iss.Message
+			}
+			m[k] = msgs
+		}
+		return Canon(m)
+	case z.ZogIssueList:
+		if raw == nil {
+			return ""
+		}
+		msgs := make([]string, len(raw))
+		for i, iss := range raw {
+			msgs[i] = iss.Message
+		}
+		return Canon(msgs)
+	}
+	return ""
 }
 
 // collectRaw hands issues back to the library with the named helper.
@@ -449,9 +517,9 @@ func collectRaw(how string, rawAny any) (sanitized string) {
 	switch raw := rawAny.(type) {
 	case z.ZogIssueMap:
 		switch how {
-		case "CollectMap":
+		case "CollectMap", "CollectList":
 			z.Issues.CollectMap(raw)
-		case "SanitizeMapAndCollect":
+		case "SanitizeMapAndCollect", "SanitizeListAndCollect":
 			sanitized = Canon(z.Issues.SanitizeMapAndCollect(raw))
 		case "Collect":
 			for _, k := range sortedKeys(raw) {
